@@ -64,11 +64,13 @@ def run(chk):
         if big and big["ops"]:
             chk.sample({"what": what, "policy": big["meta"].get("policy"), "seed": big["meta"].get("seed"), "ops": big["ops"][:10]})
 
-    plans = [(3, 3, 1, 8, 1200, 2)] if quick else [(3, 3, 1, 40, 2000, 2), (3, 2, 1, 30, 2000, 3), (5, 3, 2, 16, 2500, 2), (2, 2, 0, 16, 1200, 2), (1, 2, 0, 6, 400, 2)]
-    for (n, clients, maxfail, runs, steps, strings) in plans:
-        args = "fifo=1,clients=%d,maxfail=%d,fail=%d,buffer=3,strings=%d" % (clients, maxfail, 1 if maxfail else 0, strings)
-        out = S.drive(chk, drv, "raftkvs", n, "biased", runs, steps, args=args, tag="-h%d" % clients)
-        judge(S.histories_from_steps(out), "executions n=%d clients=%d maxfail=%d" % (n, clients, maxfail))
+    # hot = 1: the environment offers requests on one key only (Puts overwrite each other, every Get sees the outcome)
+    plans = [(3, 3, 1, 4, 1200, 2, 0), (3, 3, 1, 6, 1500, 2, 1)] if quick else [
+        (3, 3, 1, 30, 2000, 2, 0), (3, 3, 1, 40, 2500, 2, 1), (3, 2, 1, 30, 2000, 3, 1), (5, 3, 2, 16, 2500, 2, 1), (2, 2, 0, 16, 1200, 2, 1), (1, 2, 0, 6, 400, 2, 0)]
+    for (n, clients, maxfail, runs, steps, strings, hot) in plans:
+        args = "fifo=1,clients=%d,maxfail=%d,fail=%d,buffer=3,strings=%d,hotkey=%d" % (clients, maxfail, 1 if maxfail else 0, strings, hot)
+        out = S.drive(chk, drv, "raftkvs", n, "biased", runs, steps, args=args, tag="-h%d%d%d" % (n, clients, hot))
+        judge(S.histories_from_steps(out), "executions n=%d clients=%d maxfail=%d%s" % (n, clients, maxfail, " one-key workload" if hot else ""))
 
     # TLC-chosen schedules: simulation behaviours of RaftFIFO replayed through the generated code
     import importlib.util
